@@ -16,6 +16,10 @@ freshly built hierarchy. HDF5 sources written with raw h5py trigger every defect
 of fmt_hdf5/feat_defect.py; the export has to contain what `ds[feat]` shows.
 Logs are compared content-exact against the lines the harness stored (independently of the writer
 under test); the export must not modify the configuration of the source.
+Output-directory histories: the export under test runs in a directory where earlier exports of
+other data to the same path completed, raised, or were killed (directory captured at the fault
+point); the output must be what an export into a clean directory gives (Lean: `exportAt`,
+theorem `export_ignores_directory_history`).
 """
 import copy
 import hashlib
@@ -41,12 +45,23 @@ RULE = ("Hierarchy children come with a history (feature access, 1-3 equal-cardi
         "k*cs-1, k*cs, k*cs+1}, chunk size forced to 1-7 (patched get_best_nd_chunks) or 10 "
         "(CHUNK_SIZE_BYTES=1); a case is non-trivial when at least one non-scalar feature is "
         "exported through a filter that selects neither nothing nor everything. C: scalar "
-        "subsets with mixed case and duplicates. distinct = distinct canonical case descriptions.")
+        "subsets with mixed case and duplicates. distinct = distinct canonical case descriptions. "
+        "Output-directory histories (24+6 fixed cases, 12 % of the random ones): before the export under test 1-2 "
+        "earlier exports of OTHER data went to the same path and completed, raised (source fails at the "
+        "k-th image access) or their process was killed there (all files of the directory captured at "
+        "that moment, with or without flushing the open HDF5 files, and restored afterwards); 20 % of "
+        "them without override (refusal expected, file byte-identical). features=None in 13 fixed and "
+        "6 % of the random cases.")
 TRUSTED_BASE = [
     "modelled, not verified: numpy fancy/boolean indexing, h5py dataset resize and slice "
     "assignment, HDF5 filters (zstd, fletcher32), np.savetxt number formatting, uuid4",
     "rows travel as tokens (index of the source event with identical content); equality of row "
-    "content is evaluated by the harness with numpy"]
+    "content is evaluated by the harness with numpy",
+    "a killed exporting process is simulated in-process: the output directory is copied at the "
+    "fault point (optionally after H5Fflush of every HDF5 file open for writing) and restored after "
+    "the aborted call; the file-system model is a finite map name -> content (unlink, rename)",
+    "Python's sorted() on str is code-point order = Lean's String order (compared on every export "
+    "via the feature list recorded in the export log); dfn.get_feature_label is a parameter"]
 ASSUMPTIONS = ["containers without slicing support (tdms images, the harness' NoArray) are "
                "exported with filtered=True: the unfiltered route `store_feature(feat, ds[feat])` "
                "slices the container and raises for them (observation, not counted)",
@@ -56,9 +71,13 @@ ASSUMPTIONS = ["containers without slicing support (tdms images, the harness' No
                "event, channel count) and the version brand in setup:software version are excluded from "
                "the metadata comparison; the tdms-specific section fmt_tdms is dropped by the writer "
                "by design"]
-NOT_PROVED = ["number formatting of np.savetxt (correspondence with tolerance 6e-11 relative)",
+NOT_PROVED = ["number formatting of np.savetxt (correspondence with tolerance 6e-11 relative; the tsv text "
+              "theorems take fmt as a parameter that is injective up to precision by hypothesis)",
+              "joining / splitting the cells of a tsv line at tabs (a data line is the list of its cells)",
               "basin export (property C07)", "avi/fcs export",
-              "order-independence of the sorted feature list beyond membership (Python sorted())"]
+              "metadata comment lines of the tsv text (only: they are comments and precede the names line)",
+              "what a crashed export leaves at the output path is arbitrary in the model (any directory "
+              "content); which contents a real crash can produce is explored by fault injection only"]
 
 NONSCALAR = ["image", "image_bg", "mask", "contour", "trace", "c02_nd"]
 SCALARS = ["deform", "area_um", "temp", "fl1_max", "time"]
@@ -517,14 +536,173 @@ def table_tokens(tables):
     return sorted(out)
 
 
+# ---------------------------------------------------------------------------------------
+# histories of the output directory: what happened at the output path BEFORE the export under
+# test.  The property speaks about the file an export writes; it must not depend on what an
+# earlier export (completed, aborted by an exception, or hard-killed at an arbitrary moment)
+# left behind in the output directory.
+class SimulatedKill(BaseException):
+    """the exporting process dies here (the state of the directory is captured before)"""
+
+
+class FaultyRows(NoArray):
+    """integer-indexable event container that triggers `action` at its `at`-th event access"""
+
+    def __init__(self, arr, at, action):
+        super().__init__(arr)
+        self._at, self._action, self._count = at, action, 0
+
+    def __getitem__(self, i):
+        self._count += 1
+        if self._count == self._at:
+            self._action()
+        return super().__getitem__(i)
+
+
+def flush_all_hdf5():
+    """what the operating system has of every HDF5 file this process has open for writing"""
+    import h5py
+    for fid in h5py.h5f.get_obj_ids(types=h5py.h5f.OBJ_FILE):
+        try:
+            if fid.get_intent() != h5py.h5f.ACC_RDONLY:
+                h5py.h5f.flush(fid, scope=h5py.h5f.SCOPE_LOCAL)
+        except Exception:
+            pass
+
+
+def make_prior(rng, forced=None):
+    """one earlier event at the output path: an export of OTHER data that completed, raised, or
+    whose process was killed (after / without flushing) while the `at`-th image was read"""
+    n = rng.randint(4, 14)
+    how = forced or rng.choice(["killed", "killed", "killed-noflush", "raised", "complete"])
+    return {"how": how, "toks": rng.sample(range(600, 900), n), "at": rng.randint(1, n),
+            "feats": ["deform", "area_um", "image"] + (["trace"] if rng.random() < 0.4 else [])}
+
+
+def play_prior(ctx, prior, out, tag):
+    """replay one earlier event in the directory of `out` (never raises); returns the names of
+    the files the directory contains afterwards"""
+    import shutil
+    dclab = common.import_dclab()
+    outdir = out.parent
+    snap = ctx.workdir / f"snap_{tag}"
+    shutil.rmtree(snap, ignore_errors=True)
+    toks = prior["toks"]
+    state = {"taken": False}
+
+    def die():
+        if prior["how"] == "killed":
+            flush_all_hdf5()
+        if prior["how"].startswith("killed"):
+            shutil.copytree(outdir, snap)        # the directory as the dying process leaves it
+            state["taken"] = True
+            raise SimulatedKill()
+        raise RuntimeError("C02 harness: simulated failure of the source while exporting")
+
+    dd = {}
+    for f in prior["feats"]:
+        if f == "trace":
+            dd[f] = {n_: np.array([pl("trace/" + n_, t) for t in toks]) for n_ in TRACES}
+        elif f == "image" and prior["how"] != "complete":
+            dd[f] = FaultyRows(rows_of(f, toks), prior["at"], die)
+        else:
+            dd[f] = rows_of(f, toks)
+    ds = None
+    try:
+        ds = dclab.new_dataset(dd)
+        ds.logs["stale-log"] = ["left behind by an earlier export"]
+        try:
+            ds.export.hdf5(out, features=list(prior["feats"]), filtered=True, logs=True,
+                           override=True)
+        except SimulatedKill:
+            pass
+        except Exception:  # noqa
+            pass
+    except SimulatedKill:
+        pass
+    except Exception as e:  # noqa
+        ctx.note(f"C02: earlier export of a directory history could not be played: {e!r}"[:200])
+    finally:
+        try:
+            if ds is not None:
+                ds.close()
+        except Exception:
+            pass
+    if state["taken"]:
+        shutil.rmtree(outdir, ignore_errors=True)
+        shutil.copytree(snap, outdir)
+    shutil.rmtree(snap, ignore_errors=True)
+    return sorted(p_.name for p_ in outdir.iterdir())
+
+
+def output_path(ctx, case, tag, res):
+    """the path the export under test writes to; cases with `priors` get a directory of their
+    own in which the earlier events are replayed first"""
+    import shutil
+    if not case.get("priors"):
+        return ctx.workdir / f"out_{tag}.rtdc"
+    outdir = ctx.workdir / f"dir_{tag}"
+    shutil.rmtree(outdir, ignore_errors=True)
+    outdir.mkdir(parents=True)
+    out = outdir / "out.rtdc"
+    left = []
+    for prior in case["priors"]:
+        left = play_prior(ctx, prior, out, tag)
+        res["stats"].append("B:prior=" + prior["how"])
+    res["stats"].append("B:prior-left=" + ("nothing" if not left else
+                                           "output-path" if left == [out.name] else "other-files"))
+    return out
+
+
+def describe_dir(outdir):
+    """`stale` lines: the files of the output directory before the export under test (feature
+    datasets of readable HDF5 files as lists of foreign tokens, unreadable files without any)"""
+    import h5py
+    lines = []
+    for p_ in sorted(outdir.iterdir()):
+        if not p_.is_file() or name_ok(p_.name) != p_.name:
+            continue
+        lines.append(f"stale {p_.name} - -")
+        try:
+            with h5py.File(p_, "r") as h5:
+                for f in h5.get("events", {}):
+                    obj = h5["events"][f]
+                    if isinstance(obj, h5py.Group) and f == "trace":
+                        for ch in obj:
+                            lines.append(f"stale {p_.name} trace/{ch} " + (",".join(
+                                str(100000 + j) for j in range(len(obj[ch]))) or "-"))
+                    else:
+                        lines.append(f"stale {p_.name} {f} " + (",".join(
+                            str(100000 + j) for j in range(len(obj))) or "-"))
+        except Exception:
+            pass
+    return lines
+
+
+def export_log_features(o):
+    """the `features` entry of the export log (the list the feature loop of Export.hdf5 ran
+    over); None when the log is not there / not in the expected form (wording is not judged)"""
+    import json
+    try:
+        for name in o.logs:
+            if name.startswith("dclab-export_"):
+                kw = json.loads("\n".join(o.logs[name])).get("kwargs", {})
+                fs = kw.get("features")
+                if isinstance(fs, list) and all(isinstance(f, str) for f in fs):
+                    return fs
+    except Exception:
+        pass
+    return None
+
+
 def run_export(ctx, case, tag="x"):
     """execute one export case on the implementation (never raises).
     returns dict(lines, impl, oracle: list of failed clauses, nontrivial, stats)"""
-    res = {"lines": [], "impl": None, "oracle": [], "nontrivial": False, "stats": []}
+    res = {"lines": [], "impl": None, "oracle": [], "nontrivial": False, "stats": [], "extra": []}
     try:
         _run_export(ctx, case, tag, res)
     except Exception as e:  # noqa
-        if res["lines"] and res["lines"][-1].startswith("export "):
+        if res["lines"] and res["lines"][-1].startswith(("export ", "exportat ")):
             res["impl"] = "unreadable-" + common.err_class(e)
             res["oracle"].append(f"reading the exported file raised {e!r}"[:300])
         else:
@@ -551,6 +729,10 @@ def _run_export(ctx, case, tag, res):
         ds.apply_filter()
         mask = np.array(ds.filter.all, dtype=bool)
         req = list(case["req"])
+        if case.get("req_none"):      # `features=None`: documented default = the innate features
+            req = list(ds.features_innate)
+            case = dict(case, req=req)
+            res["stats"].append("B:features=None")
         if case.get("drop_missing"):
             req = [f for f in req if f in ds]
         filtered = bool(case["filtered"])
@@ -589,17 +771,29 @@ def _run_export(ctx, case, tag, res):
         for c in table_tokens(ds.tables):
             L.append("table " + " ".join(c.split("=")))
         # ---- run the implementation -----------------------------------------------------
-        out = ctx.workdir / f"out_{tag}.rtdc"
         with ChunkPatch(case["cs"]) as cp:
             cs = cp.eff
-            L.append("export %d %d %d %d %d %d 1 src_ %s %s" % (
+            out = output_path(ctx, case, tag, res)
+            override = bool(case.get("override", 1))
+            args = "%d %d %d %d %d %d 1 src_ %s %s" % (
                 filtered, case["logs"], case["tables"], case.get("skip", 0), cs, cs,
                 "".join("1" if b else "0" for b in mask) or "-",
-                ",".join(mfeats) or "-"))
+                "None" if case.get("req_none") else (",".join(mfeats) or "-"))
+            if case.get("req_none"):
+                L.append("innate " + (",".join(mfeats) or "-"))
+            existed, digest = out.exists(), None
+            if case.get("priors"):
+                L.extend(describe_dir(out.parent))
+                L.append(f"exportat {int(override)} {out.name} " + args)
+                if existed and not override:
+                    digest = hashlib.sha1(out.read_bytes()).hexdigest()
+            else:
+                L.append("export " + args)
             cfg_before = (cfg_tokens(ds, sections), repr(dict(ds.config["experiment"])))
             try:
-                ds.export.hdf5(out, features=req, filtered=filtered, logs=bool(case["logs"]),
-                               tables=bool(case["tables"]), override=True,
+                ds.export.hdf5(out, features=None if case.get("req_none") else req,
+                               filtered=filtered, logs=bool(case["logs"]),
+                               tables=bool(case["tables"]), override=override,
                                skip_checks=bool(case.get("skip", 0)))
                 err = None
             except Exception as e:  # noqa
@@ -607,7 +801,12 @@ def _run_export(ctx, case, tag, res):
         if err is not None:
             res["impl"] = "err"
             res["stats"].append("B:raised-" + common.err_class(err))
-            if not missing:
+            if isinstance(err, OSError) and existed and not override:
+                res["impl"] = "err:exists"      # documented refusal; the file must be untouched
+                if not out.exists() or hashlib.sha1(out.read_bytes()).hexdigest() != digest:
+                    res["oracle"].append("export without override raised, but the existing output "
+                                         "file was modified")
+            elif not missing:
                 res["oracle"].append(f"export raised {err!r}"[:300])
             return res
         if missing:
@@ -721,6 +920,14 @@ def _run_export(ctx, case, tag, res):
             count, rid,
             ";".join(f"{f}:{','.join(ev_tokens[f]) or '-'}" for f in sorted(ev_tokens)),
             ";".join(cfg_o), ";".join(logs_o), ";".join(tabs_o)))
+        if case.get("priors"):
+            res["impl"] += " dir=" + ",".join(sorted(p_.name for p_ in out.parent.iterdir()))
+        used = export_log_features(o)
+        if used is None:
+            res["stats"].append("B:export-log-not-parsed")
+        elif all(name_ok(f) == f and f for f in req):
+            # the list the feature loop ran over, as recorded by the export itself
+            res["extra"] = [("normfeats " + (",".join(req) or "-"), ",".join(used) or "-")]
         nonsc = [f for f in raw_feats if kind_of(f) != "scalar"]
         res["nontrivial"] = bool(nonsc) and 0 < len(idx) < n
         res["stats"].append("B:truncated" if truncated else "B:same-length")
@@ -812,6 +1019,11 @@ def random_case(ctx, i, thorough_tdms=False):
                                                    "kcs-1", "kcs", "kcs+1"]), ce)
     if kind == "defect" and rng.random() < 0.5:
         case["mask"] = [1] * cur                 # all-True filter on hdf5: the unfiltered route
+    if rng.random() < 0.12:
+        case["priors"] = [make_prior(rng) for _ in range(rng.choice([1, 1, 2]))]
+        case["override"] = int(rng.random() < 0.8)
+    if rng.random() < 0.06:
+        case["req_none"], case["req"] = 1, []
     return no_unfiltered_nonsliceable(case)
 
 
@@ -860,7 +1072,8 @@ def big_cases(ctx):
 def no_unfiltered_nonsliceable(case):
     """the unfiltered route stores `ds[feat]` by slicing; integer-only containers (tdms images,
     `NoArray`) do not support that, so they are always exported through a filter"""
-    if case["kind"].endswith("dictna") and {"image", "image_bg"} & set(case["req"]):
+    if case["kind"].endswith("dictna") and ({"image", "image_bg"} & set(case["req"])
+                                            or case.get("req_none")):
         case["filtered"] = 1
     return case
 
@@ -907,6 +1120,31 @@ def fixed_cases():
     out.append(dict(base, req=["deform", "fl2_max"]))            # missing feature
     out.append(dict(base, req=[]))                               # empty feature list
     out.append(dict(base, kind="dictna", req=["image", "image_bg", "image"], cs=4))
+    # histories of the output directory (earlier exports of other data to the same path)
+    stale = {"toks": list(range(700, 709)), "feats": ["deform", "area_um", "image", "trace"]}
+    for kind, req, cs in (("hdf5", ["deform", "image", "trace"], 2), ("dictna", ["image", "deform"], 3)):
+        for hows in (["killed"], ["killed-noflush"], ["raised"], ["complete"],
+                     ["complete", "killed"], ["killed", "killed"]):
+            for at in (1, 6):
+                out.append(dict(base, kind=kind, req=req, cs=cs, logs=1,
+                                priors=[dict(stale, how=h, at=at + j) for j, h in enumerate(hows)]))
+        for hows in (["complete"], ["raised"], ["killed"]):       # no override: refusal
+            out.append(dict(base, kind=kind, req=req, cs=cs, override=0,
+                            priors=[dict(stale, how=h, at=4) for h in hows]))
+    # `features=None`
+    for kind in ("hdf5", "dict", "dictna", "child-hdf5", "short"):
+        for filt in (1, 0):
+            c = dict(base, kind=kind, req=[], req_none=1, filtered=filt, cs=3,
+                     parent_masks=[[1, 1, 0] * 4][:kind.count("child")])
+            if kind == "short":
+                c["short"] = {"image": 2}
+            c["mask"] = c["mask"][:8] if kind.startswith("child") else c["mask"]
+            out.append(no_unfiltered_nonsliceable(c))
+    for variant in ("aspect", "time32", "inert-old-shapein"):
+        out.append({"kind": "defect", "defect": variant, "toks": toks, "req_none": 1,
+                    "avail": DEFECT_BASE + DEFECT_FEATS, "cs": 3, "parent_masks": [], "req": [],
+                    "filtered": 1, "logs": 0, "tables": 0, "skip": 0, "mask": [1, 0, 1] * 4,
+                    "with_tables": False})
     return out
 
 
@@ -932,6 +1170,11 @@ def valid_case(case):
 def shrink_case(ctx, case, still_fails):
     """shrink feature list and selection while the oracle keeps failing"""
     c = copy.deepcopy(case)
+    if c.get("priors"):         # first try without / with fewer earlier events at the output path
+        for sub in [[]] + [[p_] for p_ in c["priors"]]:
+            if len(sub) < len(c["priors"]) and still_fails(dict(c, priors=sub)):
+                c["priors"] = sub
+                break
     if len(c["req"]) > 1:
         c["req"] = common.ddmin(c["req"], lambda r: still_fails(dict(c, req=r)), max_tests=40)
     on = [i for i, b in enumerate(c["mask"]) if b]
@@ -973,7 +1216,8 @@ def part_b(ctx):
         canon = (case["kind"], tuple(case["toks"]), tuple(case["req"]), tuple(case["mask"]),
                  case["filtered"], case["cs"], case["logs"], case["tables"],
                  tuple(map(tuple, case["parent_masks"])), case.get("defect"),
-                 repr(case.get("history")))
+                 repr(case.get("history")), repr(case.get("priors")), case.get("override", 1),
+                 case.get("req_none", 0))
         if case.get("defect"):
             ctx.stat("B:defect=" + case["defect"])
         ctx.case(canon, nontrivial=res["nontrivial"],
@@ -992,13 +1236,22 @@ def part_b(ctx):
             small = shrink_case(ctx, case, still)
             r2 = run_export(ctx, small, tag="s")
             what = (r2["oracle"] or res["oracle"])[0]
+            hist = ""
+            if small.get("priors"):
+                hist = (", output path used before by " + " + ".join(
+                    f"an export that {'completed' if p_['how'] == 'complete' else 'raised' if p_['how'] == 'raised' else 'was killed'}"
+                    for p_ in small["priors"]))
             ctx.violation("spec", f"hdf5 export ({small['kind']}, filtered={small['filtered']}, "
                                   f"features={small['req']}, selection={sum(small['mask'])}/"
-                                  f"{len(small['mask'])}): {what}",
+                                  f"{len(small['mask'])}{hist}): {what}",
                           {"part": "B", "case": small, "failed": r2["oracle"] or res["oracle"]})
         lines += res["lines"]
         expect += [None] * (len(res["lines"]) - 1) + [res["impl"]] if res["lines"] else []
         metas += [ci] * len(res["lines"])
+        for ln, ans in (res["extra"] if res["lines"] else []):
+            lines.append(ln)
+            expect.append(ans)
+            metas.append(ci)
     return lines, expect, metas, cases
 
 
@@ -1029,20 +1282,27 @@ def prepare_tdms(ctx, case):
 
 # ---------------------------------------------------------------------------------------
 # part C: tsv
-def parse_tsv(path):
+def parse_tsv(path, full=False):
+    """column names (last but one comment line) and data rows; with `full` also the labels (last
+    comment line) and whether every comment line precedes the first data line"""
     hdr = None
     rows = []
     prev = None
+    ordered = True
     with open(path, "r", encoding="utf-8-sig") as fd:
         for ln in fd:
             ln = ln.rstrip("\n")
             if ln.startswith("#"):
                 hdr, prev = prev, ln
+                ordered = ordered and not rows
                 continue
             if ln.strip() == "":
                 continue
             rows.append(ln.split("\t"))
     names = hdr[2:].split("\t") if hdr is not None and len(hdr) > 2 else []
+    if full:
+        labels = prev[2:].split("\t") if prev is not None and len(prev) > 2 else []
+        return names, rows, labels, ordered
     return names, rows
 
 
@@ -1108,16 +1368,23 @@ def part_c(ctx):
             for f in SCALARS:
                 L.append(f"feat {f} scalar 1 " + (",".join(map(str, range(len(ds)))) or "-"))
             L.append(f"feat image image 1 " + (",".join(map(str, range(len(ds)))) or "-"))
-            L.append("tsv %d %s %s" % (filtered, "".join("1" if b else "0" for b in m) or "-",
-                                       ",".join(req) or "-"))
+            targs = "%d %s %s" % (filtered, "".join("1" if b else "0" for b in m) or "-",
+                                  ",".join(req) or "-")
+            L.append("tsv " + targs)
+            try:        # labels as dclab defines them (placement and order are what is compared)
+                labs = {f: tok(dclab.dfn.get_feature_label(f, rtdc_ds=ds)) for f in SCALARS}
+            except Exception:
+                labs = None
             out = ctx.workdir / "out_c.tsv"
             bad = []
             try:
                 ds.export.tsv(out, features=list(req), filtered=bool(filtered), override=True)
-                names, rows = parse_tsv(out)
+                names, rows, labels, ordered = parse_tsv(out, full=True)
                 idx = np.flatnonzero(m) if filtered else np.arange(len(ds))
                 if names != low:
                     bad.append(f"header {names} expected {low}")
+                if not ordered:
+                    bad.append("a comment line follows a data line")
                 if len(rows) != (len(idx) if low else 0):
                     bad.append(f"{len(rows)} rows, selection has {len(idx)} events")
                 tokrows = []
@@ -1139,8 +1406,10 @@ def part_c(ctx):
                         tr.append("?" if t is None else str(t))
                     tokrows.append(",".join(tr))
                 ans = "ok hdr=%s rows=%s" % (",".join(names), ";".join(tokrows))
+                ans2 = "ok hdr=%s lab=%s rows=%s" % (",".join(names), ",".join(map(tok, labels)),
+                                                     ";".join(tokrows))
             except Exception as e:  # noqa
-                ans = "err"
+                ans = ans2 = "err"
                 if all(f.lower() in SCALARS for f in req):
                     bad.append(f"tsv export raised {e!r}"[:200])
             ctx.case(("C", kind, tuple(toks), tuple(req), tuple(mask), filtered),
@@ -1153,6 +1422,10 @@ def part_c(ctx):
                                                          filtered=filtered), "failed": bad[:5]})
             lines += L
             expect += [None] * (len(L) - 1) + [ans]
+            if labs is not None:
+                ctx.stat("C:tsv-text")
+                lines += [f"label {f} {t}" for f, t in labs.items()] + ["tsvtext " + targs]
+                expect += [None] * len(labs) + [ans2]
         finally:
             for d in reversed(opened):
                 try:
